@@ -20,7 +20,7 @@ strings, or of two values that are neither numeric nor strings: it then coincide
 non-compatibility rules -/
 theorem pairCompat_eq_pairSpec (m : Mode) (op : Op) (a b : Atom)
     (h1 : isNumeric a = isNumeric b) (h2 : inexactDouble a = false) (h3 : inexactDouble b = false)
-    (h4 : isNumeric a = false → isStr a = isStr b) (h5 : trigPromotion false a b = false) :
+    (h4 : isNumeric a = false → isStr a = isStr b) (h5 : trigPromotion a b = false) :
     pairCompat m op a b = pairSpec m op a b := by
   cases a <;> cases b <;> simp [isNumeric, numRank, isStr] at h1 h4 <;>
     simp [pairCompat, isNumeric, numRank, pairSpec, castThen, fnNumber, castString, valueOp, castNum,
@@ -105,7 +105,7 @@ theorem compat_eq_v2c (op : Op) (l r : List Atom) (ho : op.isOrd = false)
     simp only
     rw [pairCompat_eq_pairSpec .v2c op a b c1 c2 c3 c4 hc.2.1, pairGeneral_conforms_clean .v2c op a b hc]
   rw [hm, hs]
-  exact anyPairs_in_allowed (pairGeneral .v2c op) _ (fun p hq => (hp p hq).2.2.2.2.2.1)
+  exact anyPairs_in_allowed (pairGeneral .v2c op) _ (fun p hq => (hp p hq).2.2.2.2.1)
 
 /-! ### rule 1: a single boolean operand -/
 
